@@ -179,7 +179,7 @@ def generate(r):
             failed = [e[0].split(";")[0] for e in entries if e[0].startswith("import self.nowhere") or e[0].startswith("import self.broken")]
             if which == "again" and failed:
                 # a failed import fails again however often it is repeated: nothing of the first attempt is left behind
-                entries.append(["%s; print('unreachable');" % r.choice(failed), False])
+                entries.append(["%s as again%d; print('unreachable');" % (r.choice(failed), i), False])
             elif which == "missing" or which == "again":
                 entries.append(["import self.nowhere%d; print('unreachable');" % i, False])
             else:
